@@ -158,6 +158,9 @@ func c02SchedSpecs(quick bool) []*EngSpec {
 
 func init() {
 	comboCheck(comboDef{id: "C02", level: "model_checking",
+		enum: func(q bool) []*EnumPlan {
+			return []*EnumPlan{{Name: "crowded-key", Cases: c02CrowdCases, Eval: evalC02Crowd}}
+		},
 		sched: func(q bool) *SchedPlan {
 			return &SchedPlan{Specs: c02SchedSpecs(q), Oracles: []Oracle{OracleLinearizable("C02")}, Bound: func(s *EngSpec, q bool) int {
 				if s.Name == "unlock-vs-key-manager-recycling" {
